@@ -277,6 +277,30 @@ Definition data_check (zs ws xv yv : list Q) (res : Q) : bool :=
   let wid := Qabsb (Qmax_list xv - Qmin_list xv) in
   existsb (fun y => Qle_bool (inject_Z (10 ^ 9) * err) (wid * Qabsb y)) yv.
 
+(* The data integrator judged AT THE ABSCISSAE IT USED.  For a table far from the origin (Julian days,
+   unix times: x ~ 2.4e6 with spacing 1e-5) a binary64 abscissa is an ulp(x) = 5e-10 away from the real
+   one, which is 5e-5 spacings: compared with the interpolant at the REAL abscissae no float code can
+   meet a bound relative to the width.  What the statement says -- "the rule's weighted sum over the
+   mapped abscissae of the linearly interpolated values" -- is decided here in two parts: (1) the
+   abscissae [xi] handed to interplin are the mapped abscissae up to binary64 rounding (2^-50 of
+   |x1|+|x2|: three roundings of a product and a sum); (2) the result is the weighted sum of the
+   EXACT chord values at those abscissae, up to 1e-9 of width * |y|. *)
+Definition ulp_tol : R := (/ 2 ^ 50)%R.
+Definition data_ok_at (zs ws xv yv xi : list R) (res : R) : Prop :=
+  (let x1 := Rmin_list xv in let x2 := Rmax_list xv in
+   Forall2 (fun u z => Rabs (u - (z * ((x2 - x1) / 2) + (x2 + x1) / 2)) <= ulp_tol * (Rabs x1 + Rabs x2)) xi zs /\
+   exists y, In y yv /\
+     Rabs (res - (x2 - x1) / 2 * Rsum (map2 (fun u w => interplin yv xv u * w) xi ws))
+     <= tol * Rabs (x2 - x1) * Rabs y)%R.
+
+Definition data_check_at (zs ws xv yv xi : list Q) (res : Q) : bool :=
+  (increasing_Q xv && (2 <=? length xv)%nat && Nat.eqb (length xv) (length yv) &&
+   let x1 := Qmin_list xv in let x2 := Qmax_list xv in
+   let f1 := (x2 - x1) * (1 # 2) in let f2 := (x2 + x1) * (1 # 2) in
+   forallb2 (fun u z => Qle_bool (inject_Z (2 ^ 50) * Qabsb (u - (z * f1 + f2))) (Qabsb x1 + Qabsb x2)) xi zs &&
+   let err := Qabsb (res - f1 * Qsum (map2 (fun u w => interplin_Q yv xv u * w) xi ws)) in
+   existsb (fun y => Qle_bool (inject_Z (10 ^ 9) * err) (Qabsb (x2 - x1) * Qabsb y)) yv)%Q.
+
 (* call histories: the observed outcome of each call is the point count of the rule the object
    holds after the call, the returned float, and the float a fresh object with that count
    returns on the same arguments (or the error class).  The checker follows [spec_run] with
